@@ -321,6 +321,89 @@ def _run(ctx, d, S2K):
                 (spec == 3 and s2.count != rfc_count(c)):
             ctx.fail('specifier-wire', 'S2K specifier does not parse back to the same derivation', dict(case, impl=repr(o)))
 
+    # ---- 7. GnuPG as a second opinion on the RFC reading (notes only) ----
+    gpg_crosscheck(ctx, rng, ctx.n(6, 60))
+
+
+def gpg_crosscheck(ctx, rng, n):
+    """validation aid for the RFC reading (never a condition for passing): GnuPG encrypts with a passphrase under random
+    S2K parameters, PGPy must decrypt, i.e. derive the same key; results are recorded as notes"""
+    import os, shutil, subprocess, tempfile, warnings
+    load = load_repo()
+    gpg = shutil.which('gpg')
+    if not gpg:
+        ctx.skipped.append('gpg not installed: no GnuPG cross-check of the S2K reading')
+        return
+    tmp = tempfile.mkdtemp(prefix='c12gpg')
+    os.chmod(tmp, 0o700)
+    ok, bad, refused = 0, [], 0
+    try:
+        for _ in range(n):
+            mode = rng.choice([0, 1, 3, 3])
+            digest = rng.choice(['MD5', 'SHA1', 'RIPEMD160', 'SHA224', 'SHA256', 'SHA384', 'SHA512'])
+            cipher = rng.choice(['AES', 'AES192', 'AES256', '3DES', 'CAST5', 'BLOWFISH', 'CAMELLIA128', 'CAMELLIA192', 'CAMELLIA256'])
+            cnt = rfc_count(rng.randrange(256))
+            kind, pw = gen_pw(rng, rng.choice([1, 5, 12, 40, 200]), rng.choice(['ascii', 'utf8']))
+            pw = pw.replace('\x00', 'a')
+            pt = bytes(rng.randrange(32, 127) for _ in range(rng.randrange(1, 60)))
+            with open(os.path.join(tmp, 'pt'), 'wb') as f:
+                f.write(pt)
+            cmd = [gpg.encode(), b'--homedir', tmp.encode(), b'--batch', b'--no-tty', b'--yes', b'--pinentry-mode', b'loopback',
+                   b'--passphrase', utf8(pw), b'--s2k-mode', str(mode).encode(), b'--s2k-digest-algo', digest.encode(),
+                   b'--s2k-count', str(cnt).encode(), b'--cipher-algo', cipher.encode(), b'--allow-old-cipher-algos',
+                   b'-o', os.path.join(tmp, 'ct').encode(), b'--symmetric', os.path.join(tmp, 'pt').encode()]
+            try:
+                r = subprocess.run(cmd, stdout=subprocess.PIPE, stderr=subprocess.PIPE, timeout=60)
+                if r.returncode != 0:
+                    cmd.remove(b'--allow-old-cipher-algos')
+                    r = subprocess.run(cmd, stdout=subprocess.PIPE, stderr=subprocess.PIPE, timeout=60)
+            except Exception:
+                refused += 1
+                continue
+            if r.returncode != 0:
+                refused += 1
+                continue
+            with warnings.catch_warnings():
+                warnings.simplefilter('ignore')
+                o = outcome(lambda: bytes(load.PGPMessage.from_file(os.path.join(tmp, 'ct')).decrypt(pw).message))
+            if o == ('ok', pt):
+                ok += 1
+            else:
+                bad.append({'mode': mode, 'digest': digest, 'cipher': cipher, 'count': cnt, 'pw': pw[:40], 'impl': repr(o)[:80]})
+        # the other direction: PGPy encrypts with a passphrase (iterated+salted, count 255), gpg must decrypt
+        from pgpy.constants import HashAlgorithm as HA, SymmetricKeyAlgorithm as SA
+        ok2, bad2 = 0, []
+        for _ in range(max(2, n // 3)):
+            hname = rng.choice(['SHA1', 'SHA256', 'SHA384', 'SHA512', 'SHA224', 'RIPEMD160', 'MD5'])
+            cname = rng.choice(['AES128', 'AES192', 'AES256', 'CAST5', 'Camellia256'])
+            kind, pw = gen_pw(rng, rng.choice([1, 9, 30, 120]), rng.choice(['ascii', 'utf8']))
+            pw = pw.replace('\x00', 'a')
+            pt = bytes(rng.randrange(32, 127) for _ in range(rng.randrange(1, 60)))
+            with warnings.catch_warnings():
+                warnings.simplefilter('ignore')
+                o = outcome(lambda: bytes(load.PGPMessage.new(pt, compression=0).encrypt(pw, cipher=getattr(SA, cname), hash=getattr(HA, hname))))
+            if o[0] != 'ok':
+                bad2.append({'hash': hname, 'cipher': cname, 'impl': repr(o)[:80]})
+                continue
+            with open(os.path.join(tmp, 'ct2'), 'wb') as f:
+                f.write(o[1])
+            try:
+                r = subprocess.run([gpg.encode(), b'--homedir', tmp.encode(), b'--batch', b'--no-tty', b'--yes', b'--pinentry-mode', b'loopback',
+                                    b'--passphrase', utf8(pw), b'--decrypt', os.path.join(tmp, 'ct2').encode()],
+                                   stdout=subprocess.PIPE, stderr=subprocess.PIPE, timeout=60)
+            except Exception:
+                refused += 1
+                continue
+            if r.returncode == 0 and r.stdout == pt:
+                ok2 += 1
+            else:
+                bad2.append({'hash': hname, 'cipher': cname, 'pw': pw[:40], 'gpg': r.stderr.decode('latin-1')[-120:]})
+    finally:
+        shutil.rmtree(tmp, ignore_errors=True)
+    ctx.notes.append('GnuPG cross-check (aid, not a condition): %d passphrase-encrypted messages made by gpg with random S2K mode/digest/count/cipher '
+                     'decrypted by PGPy, %d not decrypted %s, %d refused by gpg; %d messages passphrase-encrypted by PGPy decrypted by gpg, %d not %s'
+                     % (ok, len(bad), bad[:3] if bad else '', refused, ok2, len(bad2), bad2[:3] if bad2 else ''))
+
 
 def replay(ctx, case):
     load_repo()
